@@ -1,4 +1,5 @@
 import PgsVerif.Proofs.WalkTree
+import PgsVerif.Proofs.PathsNodup
 /-!
 # C07 — Walk visits every contained entity once, depth-first, honouring prune and error
 
@@ -147,11 +148,6 @@ theorem C07_error_returned (pol : Policy) : ∀ (t : Forest) (v : Nat) (ws : WS)
     | failKeep => simp only [ha] at he ⊢; cases he; exact ⟨.inr ha, v, rfl⟩
 
 /-! ### the forest's pre-order is the declarative order of the Φ checker -/
-theorem leavesF_pre (rs : List Ref) : (leavesF rs).pre = rs := by
-  induction rs with
-  | nil => rfl
-  | cons r rs ih => simp [leavesF, Forest.pre, ih]
-
 theorem enumsF_pre (fi : Nat) (p : List Nat) (tag : Nat) : ∀ (es : List EnumD) (i : Nat),
     (enumsF fi p tag i es).pre = ((idx es).map fun (q : Nat × EnumD) => enumOrder ⟨fi, p ++ [tag, i + q.1]⟩ q.2.values.length).flatten := by
   intro es
@@ -222,5 +218,25 @@ theorem C07_walk_file (pol : Policy) (w : World) (fi : Nat) (f : FileD) (hf : w.
       | some v1 => simp [fileKidsF, walkForest_append, acceptEnums_eq, acceptMsgs_eq, acceptServices_eq, acceptLeaves_eq]
   · simp only [walkFrom, hge, if_false, hf, if_true]
     simp [fileKidsF, walkForest_append, acceptEnums_eq, acceptMsgs_eq, acceptServices_eq, acceptLeaves_eq]
+
+/-- **C07 (no entity twice in the containment order)** -/
+theorem C07_pre_nodup (fi : Nat) (f : FileD) : (fileF fi f).pre.Nodup := fileF_nodup fi f
+
+/-- **C07 (exactly once)**: whatever the visitor policy, a walk of a file visits no entity twice;
+    and an always-continuing visitor visits every contained entity, so each exactly once. -/
+theorem C07_exactly_once (pol : Policy) (fi : Nat) (f : FileD) :
+    ((walkForest pol 0 (fileF fi f) ⟨[], none⟩).trace.map (·.1)).Nodup := by
+  obtain ⟨vs, h1, h2⟩ := C07_visits_in_order pol (fileF fi f) 0 ⟨[], none⟩
+  rw [h1]
+  simp only [List.append_nil, List.map_reverse]
+  have := h2.nodup (fileF_nodup fi f)
+  unfold List.Nodup at *
+  rw [List.pairwise_reverse]
+  exact this.imp (fun h => Ne.symm h)
+
+theorem C07_all_exactly_once (fi : Nat) (f : FileD) :
+    (walkForest [] 0 (fileF fi f) ⟨[], none⟩).trace.reverse.map (·.1) = fileOrder fi f ∧ (fileOrder fi f).Nodup := by
+  rw [C07_visits_everything, ← C07_pre_is_fileOrder]
+  refine ⟨by simp [List.map_reverse, Function.comp_def], fileF_nodup fi f⟩
 
 end Pgs.AST
